@@ -71,6 +71,7 @@ func main() {
 		fatal("load: %v", err)
 	}
 	eng.verbose = *verbose
+	eng.coverReturns = *tier == "thorough" || os.Getenv("GOVC_COVER_RETURNS") != ""
 	if *tier == "thorough" {
 		eng.timeout = 120
 	}
@@ -221,6 +222,7 @@ func main() {
 	os.MkdirAll(replayDir, 0o755)
 	nProof, nDis, nCover, nCoverSat := 0, 0, 0, 0
 	coverUndecided := []string{}
+	unreachable := []string{}
 	byBackend := map[string]int{}
 	solverSecs := 0.0
 	violations := 0
@@ -238,6 +240,13 @@ func main() {
 				if ob.Result != "unsat" {
 					coverUndecided = append(coverUndecided, ob.Name)
 					fmt.Printf("cover undecided: %s result=%s (vacuity of this path is not excluded by the solver)\n", ob.Name, ob.Result)
+				}
+				if ob.Result == "unsat" && strings.Contains(ob.Name, "#reach@") {
+					// a return site no input reaches: dead code, or a path the model excludes (panic, an assumed
+					// library contract). Reported for review, not a violation of the property.
+					fmt.Printf("unreachable return site: %s\n", ob.Name)
+					unreachable = append(unreachable, ob.Name)
+					continue
 				}
 				if ob.Result == "unsat" {
 					violations++
@@ -329,6 +338,7 @@ func main() {
 				"solver_seconds":           round3(solverSecs),
 				"cover_queries":            map[string]int{"run": nCover, "sat": nCoverSat, "undecided": len(coverUndecided)},
 				"cover_undecided":          coverUndecided,
+				"unreachable_return_sites": unreachable,
 				"not_covered":              ps.NotCovered,
 				"stale_contracts":          stale,
 				"trusted_contracts":        trustedContracts,
